@@ -4,6 +4,9 @@
 //   archive_drv rt   <values-per-type>                 round trips:   Save{type,value,bytes}  Load{type,bytes,ok,value,orig}
 //   archive_drv mut  <bases-per-type> <random-per-base> mutated archives of every type: Load{type,bytes,ok,value,mut}
 //   archive_drv wrap <values-per-type>                 the same through cache_interface / session_interface store_data, fetch_data
+//   archive_drv obj <execs> <ops> <shard>              random operation sequences on three archive OBJECTS (several blobs through one
+//                                                      object, mode()/reset() re-reads, interleaved save/load, reuse after errors, copies):
+//                                                      OSave OLoad OMode ORewind OStrSet OStrGet OEof OCopy, judged by ArchiveObjTrace.tla
 //   archive_drv chunk <bases> <random-per-base>        chunk-level reads of mutated archives through the public API:
 //                                                      Arch{bytes}  Read{op,len,ptr,ok,size,data}  Eof{ptr,eof}
 //
@@ -524,6 +527,112 @@ static void run_wrap()
 	wrap_type<S1>("S1",ci,si); wrap_type<S2>("S2",ci,si); wrap_type<S3>("S3",ci,si); wrap_type<S4>("S4",ci,si);
 }
 
+// ------------------------------------------------------------------ the archive object as a state machine
+static cppcms::archive *objs[3];
+static char const *mode_name(cppcms::archive &a) { return a.mode()==cppcms::archive::save_to_archive ? "save" : "load"; }
+
+template<typename T> static void obj_value_op(int o)
+{
+	cppcms::archive &a=*objs[o];
+	std::string ty=U<T>::type();
+	int api=(*R)(2);
+	if(a.mode()==cppcms::archive::save_to_archive) {
+		T v=U<T>::gen(1);
+		std::string sv=U<T>::val(v);
+		if(api==0) a << v; else a & v;
+		emit(vt::J().s("e","OSave").i("o",o).s("api",api==0?"<<":"&").s("mode","save").raw("type",ty).raw("value",sv).str());
+	}
+	else {
+		T out=U<T>::gen(1); bool ok=false; std::string exc;
+		try { if(api==0) a >> out; else a & out; ok=true; }
+		catch(cppcms::archive_error const &) { exc="archive_error"; }
+		catch(std::exception const &e) { exc=typeid(e).name(); }
+		vt::J j; j.s("e","OLoad").i("o",o).s("api",api==0?">>":"&").s("mode","load").raw("type",ty).b("ok",ok);
+		if(ok) j.raw("value",U<T>::val(out)); else j.s("exc",exc);
+		emit(j.str());
+	}
+}
+static void obj_value(int o,int k)
+{
+	switch(k) {
+	case 0: obj_value_op<int>(o); break;
+	case 1: obj_value_op<std::string>(o); break;
+	case 2: obj_value_op<unsigned char>(o); break;
+	case 3: obj_value_op<std::vector<int> >(o); break;
+	case 4: obj_value_op<std::map<std::string,int> >(o); break;
+	case 5: obj_value_op<booster::shared_ptr<std::string> >(o); break;
+	case 6: obj_value_op<S1>(o); break;
+	case 7: obj_value_op<std::multimap<int,std::string> >(o); break;
+	default: obj_value_op<std::vector<std::string> >(o); break;
+	}
+}
+static void obj_eof(int o) { emit(vt::J().s("e","OEof").i("o",o).b("eof",objs[o]->eof()).str()); }
+struct oblob { std::string bytes; std::vector<int> kinds; };
+static std::vector<oblob> oblobs;
+static std::vector<int> okinds[3];      // driver-side guess of what the buffer holds (steers the choice of types only)
+static size_t oidx[3];
+static void run_objs(int execs,int nops)
+{
+	for(int i=0;i<3;i++) objs[i]=0;
+	for(int e=0;e<execs;e++) {
+		for(int i=0;i<3;i++) { delete objs[i]; objs[i]=new cppcms::archive(); okinds[i].clear(); oidx[i]=0; }
+		emit(vt::J().s("e","Reset").s("mode","obj").i("exec",e).str());
+		oblobs.clear();
+		{ oblob b; oblobs.push_back(b); b.bytes=std::string("\4\0\0\0x",5); b.kinds.push_back(1); oblobs.push_back(b);
+		  oblob c; c.bytes=std::string("\1\0\0\0\7\2\0\0\0ab",11); c.kinds.push_back(2); c.kinds.push_back(1); oblobs.push_back(c); }
+		int bias=(*R)(3);   // 0: one type, 1: two types, 2: all
+		int t0=(*R)(9),t1=(*R)(9);
+		for(int n=0;n<nops;n++) {
+			int o=(*R)(4)==0 ? (*R)(3) : 0;       // most traffic through object 0
+			cppcms::archive &a=*objs[o];
+			bool loading=a.mode()==cppcms::archive::load_from_archive;
+			bool exhausted=loading && oidx[o]>=okinds[o].size();
+			int k=(*R)(20);
+			if(exhausted && k<9 && (*R)(10)<7) k=9+(*R)(8);    // at the end of what was saved: mostly rewind / new blob / new phase
+			if(k<9) {
+				int kind = bias==0?t0:bias==1?((*R)(2)?t0:t1):(int)(*R)(9);
+				if(loading) { if(oidx[o]<okinds[o].size() && (*R)(10)<8) kind=okinds[o][oidx[o]]; oidx[o]++; }
+				else okinds[o].push_back(kind);
+				obj_value(o,kind);
+				if((*R)(3)==0) obj_eof(o);
+			}
+			else if(k<11) {
+				bool ld=(*R)(4)!=0;
+				a.mode(ld?cppcms::archive::load_from_archive:cppcms::archive::save_to_archive);
+				oidx[o]=0;
+				emit(vt::J().s("e","OMode").i("o",o).s("m",ld?"load":"save").str());
+			}
+			else if(k<12) { a.reset(); oidx[o]=0; emit(vt::J().s("e","ORewind").i("o",o).str()); }
+			else if(k<14) {
+				std::string b=a.str();
+				emit(vt::J().s("e","OStrGet").i("o",o).bytes("bytes",b).s("mode",mode_name(a)).str());
+				if(oblobs.size()<40) {
+					oblob x; x.bytes=b; x.kinds=okinds[o]; oblobs.push_back(x);
+					if(!b.empty() && (*R)(3)==0) { oblob m=x; m.bytes=b.substr(0,b.size()-1-(*R)(b.size()<5?b.size():5)); oblobs.push_back(m); }
+					if(!b.empty() && (*R)(5)==0) { oblob m=x; m.bytes[(*R)(m.bytes.size())]=char((*R)(6)); oblobs.push_back(m); }
+				}
+			}
+			else if(k<17) {
+				oblob const &b=oblobs[(*R)(oblobs.size())];
+				a.str(b.bytes); okinds[o]=b.kinds; oidx[o]=0;
+				emit(vt::J().s("e","OStrSet").i("o",o).bytes("bytes",b.bytes).str());
+				if((*R)(4)==0) obj_eof(o);
+			}
+			else if(k<18) obj_eof(o);
+			else {
+				int s=(o+1+(*R)(2))%3; int how=(*R)(3);
+				if(how==0) { cppcms::archive *c=new cppcms::archive(*objs[s]); delete objs[o]; objs[o]=c; }
+				else if(how==1) { *objs[o]=*objs[s]; }
+				else { *objs[o]=std::move(*objs[s]); *objs[s]=cppcms::archive(); }
+				okinds[o]=okinds[s]; oidx[o]=oidx[s];
+				if(how==2) { okinds[s].clear(); oidx[s]=0; }
+				emit(vt::J().s("e","OCopy").i("d",o).i("s",s).s("how",how==0?"ctor":how==1?"assign":"move").str());
+			}
+		}
+		for(int i=0;i<3;i++) { emit(vt::J().s("e","OStrGet").i("o",i).bytes("bytes",objs[i]->str()).s("mode",mode_name(*objs[i])).str()); obj_eof(i); }
+	}
+}
+
 #define TY(T) run_type<T,false>(#T)
 #define TYS(T) run_type<T,true>(#T)
 typedef std::vector<int> vec_int;
@@ -549,6 +658,7 @@ int main(int argc,char **argv)
 	if(g_mode=="rt") g_values=argc>2?atoi(argv[2]):20;
 	else { g_bases=argc>2?atoi(argv[2]):2; g_random=argc>3?atoi(argv[3]):10; }
 	if(g_mode=="chunk") { run_chunks(); }
+	else if(g_mode=="obj") { run_objs(argc>2?atoi(argv[2]):50,argc>3?atoi(argv[3]):60); }
 	else if(g_mode=="wrap") { g_values=argc>2?atoi(argv[2]):20; run_wrap(); }
 	else {
 		TY(unsigned char); TY(int); TY(long long); TY(std::string);
